@@ -32,6 +32,7 @@ OBLIGATIONS = {
     "flip_magic": "a bit was flipped in the magic", "flip_command": "a bit was flipped in the command field",
     "flip_length": "a bit was flipped in the length", "flip_checksum": "a bit was flipped in the checksum",
     "flip_payload": "a bit was flipped in the payload",
+    "long_dribble": "a payload of >= 1000 bytes delivered one byte per recv()",
     "two_messages_back_to_back": "a stream with >= 2 messages was explored",
     "codec_count_253": "a codec count crossed the 252/253 CompactSize boundary",
 }
@@ -221,8 +222,11 @@ NAMES = ["verack", "ping", "inv", "addr", "version", "unknown", "tx300"]
 # ---------------------------------------------------------------- case kinds
 def chk_schedule(case):
     """one fixed execution: stream + magic + explicit choice list (or a named policy)"""
-    stream = bytes.fromhex(case["stream"])
     magic = bytes.fromhex(case["magic"])
+    if "big_size" in case:
+        stream = R.frame(magic, b"block", filler(case.get("seed", 0), "c17-big", case["big_size"])) + alphabet(case.get("seed", 0))["ping"]
+    else:
+        stream = bytes.fromhex(case["stream"])
     if "choices" in case:
         ex = Explorer(lambda ctx: drive(stream, magic, ctx, menu=_menu(case.get("menu"))), cache=False)
         ctx, obs = ex.one(case["choices"])
@@ -383,7 +387,7 @@ def jobs(tier, seed):
         for combo in itertools.product(NAMES, repeat=n):
             w = sum(40 if c == "tx300" else (5 if c == "version" else 1) for c in combo)
             js.append({"name": "frag/" + "+".join(combo), "part": "frag", "msgs": list(combo), "weight": w})
-    for size in (1000, 65536, 70000):
+    for size in (1000, 1500, 5000, 65536, 70000):
         js.append({"name": f"frag-big/{size}", "part": "big", "size": size, "weight": 30})
     pairs = [("ping", "inv"), ("version", "verack"), ("unknown", "ping")] if tier == "quick" else \
         [("ping", "inv"), ("version", "verack"), ("unknown", "ping"), ("addr", "addr"), ("verack", "tx300"), ("inv", "version")]
@@ -486,6 +490,16 @@ def run_job(job):
         stream = R.frame(magic, b"block", payload) + A["ping"]
         ex = _explore_stream(acc, stream, magic, menu="big", bound=2 if job["tier"] == "quick" else 3)
         acc.extra["note"] = "chunk menu {all, all-1, half, 1448, 1}; deviation bound on non-default answers"
+        # complete fixed schedules on the long stream: one byte per recv() (thousands of short reads in a row), halves, MTU-sized
+        for pol, at in (("bytewise", 0), ("whole", 0), ("split_before", 24 + job["size"] // 2), ("split_after", 23)):
+            case = {"stream": stream.hex(), "magic": magic.hex(), "policy": pol, "at": at}
+            acc.evaluations += 1
+            acc.executions += 1
+            acc.nontrivial += 1
+            acc.ob("long_dribble")
+            for key, desc in chk_schedule(case):
+                acc.violation("schedule", {"stream_desc": f"block({job['size']}B)+ping", **({"stream": stream.hex()} if len(stream) < 5000 else {"big_size": job["size"]}),
+                                           "magic": magic.hex(), "policy": pol, "at": at}, key, desc + f" [{pol} schedule on a {job['size']}-byte payload]")
         acc.sample({"big_payload": job["size"], "executions": ex.executions, "states": ex.states})
     elif part == "flip":
         stream = b"".join(A[m] for m in job["msgs"])
